@@ -4478,6 +4478,8 @@ class Pack:
         self._basename = basename
         self.object_format = object_format
         self._data = None
+        self._data_checked = False
+        self._checking_data = False
         self._idx = None
         self._bitmap = None
         self._idx_path = self._basename + ".idx"
@@ -4543,7 +4545,17 @@ class Pack:
                 self._data = self._data_load()
             except FileNotFoundError as exc:
                 raise PackFileDisappeared(self) from exc
-            self.check_length_and_checksum()
+            self._data_checked = False
+        if not self._data_checked and not self._checking_data:
+            # Repeat the check on every access until it has passed once: if
+            # it raised on the first access, a later access must not hand
+            # out data from a pack that does not belong to this index.
+            self._checking_data = True
+            try:
+                self.check_length_and_checksum()
+            finally:
+                self._checking_data = False
+            self._data_checked = True
         return self._data
 
     @property
